@@ -43,6 +43,7 @@ class Expressed:
         self.wire = None           # Interest bytes seen on the face
         self.express_error = None  # exception raised synchronously by express()
         self.validator_calls = []  # (start_ms, end_ms or None)
+        self.awaiting = False      # the application has started awaiting the result
 
 
 class AppSim:
@@ -118,7 +119,7 @@ class AppSim:
 
     # -- express ----------------------------------------------------------------------------------
     def express(self, name, lifetime=4000, can_be_prefix=False, must_be_fresh=False, vlat=0.0, verdict=True,
-                validator='default', app_param=None, signer=None, nonce=1234):
+                validator='default', app_param=None, signer=None, nonce=1234, await_after=0.0, shared_param=False):
         """name: list of component bytes.  vlat seconds.  verdict: ValidResult (v2) / truthy (legacy)."""
         h = Expressed(len(self.expressed))
         self.expressed.append(h)
@@ -144,6 +145,7 @@ class AppSim:
             _validator = None
 
         async def _await(coro):
+            h.awaiting = True
             try:
                 res = await coro
                 if self.frontend == 'v2':
@@ -167,28 +169,37 @@ class AppSim:
             h.done_count += 1
             h.done_ms = vl.now_ms()
 
+        def _param():
+            if not shared_param:
+                return InterestParam(can_be_prefix=can_be_prefix, must_be_fresh=must_be_fresh, nonce=nonce, lifetime=lifetime)
+            ip = self.__dict__.setdefault('_shared_ip', InterestParam())
+            ip.can_be_prefix, ip.must_be_fresh, ip.nonce, ip.lifetime = can_be_prefix, must_be_fresh, nonce, lifetime
+            return ip
+
         def _do():
             before = len(self.face.sent)
             h.t0_ms = vl.now_ms()
             try:
                 if self.frontend == 'v2':
-                    coro = self.app.express(name, _validator, app_param=app_param, signer=signer,
-                                            interest_param=InterestParam(can_be_prefix=can_be_prefix, must_be_fresh=must_be_fresh,
-                                                                         nonce=nonce, lifetime=lifetime))
+                    coro = self.app.express(name, _validator, app_param=app_param, signer=signer, interest_param=_param())
                 else:
                     kw = {}
                     if signer is not None:
                         kw['signer'] = signer
-                    coro = self.app.express_interest(name, app_param=app_param, validator=_validator,
-                                                     interest_param=InterestParam(can_be_prefix=can_be_prefix,
-                                                                                  must_be_fresh=must_be_fresh, nonce=nonce,
-                                                                                  lifetime=lifetime), **kw)
+                    coro = self.app.express_interest(name, app_param=app_param, validator=_validator, interest_param=_param(), **kw)
             except Exception as e:
                 h.express_error = e
                 return
             if len(self.face.sent) > before:
                 h.wire = self.face.sent[before]
-            h.task = asyncio.get_running_loop().create_task(_await(coro))
+            if await_after > 0:
+                # the application does something else first and awaits the result only later
+                async def _later():
+                    await asyncio.sleep(await_after)
+                    await _await(coro)
+                h.task = asyncio.get_running_loop().create_task(_later())
+            else:
+                h.task = asyncio.get_running_loop().create_task(_await(coro))
         self.vl.call(_do)
         self.vl.settle()
         return h
